@@ -161,6 +161,8 @@ DIRECTED = [
     ("Select(Select(EventDataset(), lambda e: (e.jets, e.met)), lambda t: Select(t[0], lambda j: Select(j.trks, lambda e: e.pt + t[1])))", "capture-two-levels-below-substitution"),
     ("Select(EventDataset(), lambda e: Select(Select(e.jets, lambda j: (j, e.met)), lambda t: Select(t[0].trks, lambda k: Select(t[0].trks, lambda e: e.pt + t[1] + k.pt))))", "capture-two-levels-below-substitution-nested"),
     ("Select(EventDataset(), lambda e: Select(Select(e.jets, lambda j: (j, e.met)), lambda t: Select(t[0].trks, lambda e: e.pt + t[1])))", "capture-one-level-below-substitution-nested"),
+    ("Select(EventDataset(), lambda e: (lambda x: Select(e.jets, lambda e: Select(Select(e.trks, lambda j: j.pt + x), lambda p: p * 2)))(e.met))", "substituted-argument-revisited-under-renamed-binder"),
+    ("Select(EventDataset(), lambda x: (lambda x, x_: Where(Where(x_.trks, lambda x: x_.met > x.x), lambda x: x_.y > x.pt))(1, x))", "substituted-argument-revisited-under-called-lambda-parameter"),
     ("Select(EventDataset(), lambda a: (lambda a, b: a.y - b)(a, a.x))", "called-lambda-later-argument-sees-earlier-parameter"),
     ("Select(EventDataset(), lambda a: (lambda b, a: a.y - b)(a=a, b=a.x))", "called-lambda-keyword-argument-order"),
     ("Where(EventDataset(), lambda e: True)", "where-true"),
